@@ -36,6 +36,10 @@ def cases(draw):
     # cell size: the property covers any lattice; large cells give small d* on the low order rings
     scale = draw(st.sampled_from([1.0, 1.0, 1.0, 4.0, 12.0]))
     cell = [x * scale for x in cell[:3]] + list(cell[3:])
+    # one long axis (layered structures): reflections a few degrees apart on the low rings
+    if fam in ("tetragonal", "hexagonal", "orthorhombic", "monoclinic", "triclinic") and draw(st.sampled_from([0, 0, 1])):
+        k = 2 if fam in ("tetragonal", "hexagonal") else draw(st.sampled_from([1, 2]))
+        cell[k] = cell[k] * draw(st.sampled_from([3.0, 4.7, 6.0]))
     sym = draw(st.sampled_from(CENTRINGS[fam]))
     nrings = draw(st.integers(3, 10))
     r1 = draw(st.integers(0, 9))
@@ -91,7 +95,12 @@ def check(case, rec=None, allpairs=False):
     pairs = [(a, b) for a in range(len(h1s)) for b in range(len(h2s))]
     if not (allpairs and len(h1s) <= 48 and len(h2s) <= 48):
         rng.shuffle(pairs)
-        pairs = pairs[:24]
+        # always among them: the pairs closest to the library's collinearity cut (|cos| just below 0.98)
+        G1 = np.array(h1s, float) @ UB.T
+        G2 = np.array(h2s, float) @ UB.T
+        C = np.abs((G1 / np.linalg.norm(G1, axis=1)[:, None]) @ (G2 / np.linalg.norm(G2, axis=1)[:, None]).T)
+        near = sorted([p_ for p_ in pairs if C[p_] < 0.98 - 1e-9], key=lambda p_: -C[p_])[:6]
+        pairs = near + [p_ for p_ in pairs if p_ not in near][:24 - len(near)]
     fails = []
     ntested = 0
     degenerate = 0
